@@ -55,6 +55,16 @@ def usable (pts : List (Pt K)) (o : Obs K) : Bool :=
     | none => false
     | some p => takesPart p rg.2)
 
+/-- "direction set with fewer than two targets", in terms of the input: the number of distinct
+    targets among the directions of the list that are active and usable -/
+def usableTargets (pts : List (Pt K)) (os : List (Obs K)) : Nat :=
+  ((os.filter (fun o => o.ty == .direction && (o.active && usable pts o))).map (·.to)).eraseDups.length
+
+/-- the types whose positional misclosure is computed from the absolute term (cc → mm over a distance) -/
+def angular : ObsType → Bool
+  | .direction | .angle | .azimuth | .z_angle => true
+  | _ => false
+
 section
 variable [Scalar K]
 
@@ -83,6 +93,12 @@ def misclosure (t : ObsType) (c : AbsCtx K) : K :=
   | .ydiff => Scalar.abs (c.cy - c.sy - c.value) * thousand
   | .zdiff => Scalar.abs (c.cz - c.sz - c.value) * thousand
 
+/-- the distance over which an angular absolute term (cc) is turned into a position (mm) -/
+def lever (t : ObsType) (c : AbsCtx K) : K :=
+  match t with
+  | .z_angle => slope c
+  | _ => c.d0
+
 /-- horizontal distance station–target when both have coordinates, else 0 -/
 def d0 (stanHasXY cilHasXY : Bool) (c : AbsCtx K) : K :=
   if stanHasXY && cilHasXY then
@@ -90,6 +106,13 @@ def d0 (stanHasXY cilHasXY : Bool) (c : AbsCtx K) : K :=
     let dx : K := c.sx - c.cx
     Scalar.sqrt (dy * dy + dx * dx)
   else Scalar.ofNat 0
+
+/-- the factor between the entry of the vector the code consults and the absolute term, for an
+    observation that is not correlated with another one: `m0/stdev` after homogenisation (member `b`), 1 for `rhs_` -/
+def consultedFactor (a : AbsVec) (w : K) : K :=
+  match a with
+  | .memberB => w
+  | .rhs => Scalar.ofNat 1
 
 /-- the k-th *active* observation of the list (= k-th entry of `revised_obs_`) is paired with the
     k-th entry of the vector; passive observations and observations beyond the vector get `none` -/
